@@ -2,6 +2,7 @@ package props
 
 import (
 	"fmt"
+	"sort"
 	"strings"
 
 	"github.com/vedadiyan/genql"
@@ -48,7 +49,7 @@ var c12Positions = []struct {
 }
 
 func init() {
-	floor := []string{"item.async", "item.fuse", "item.fuse-alias", "item.setvar", "rich"}
+	floor := []string{"item.async", "item.async-union", "item.async-cte", "item.async-multidim", "item.once-multidim", "item.fuse", "item.fuse-alias", "item.setvar", "rich", "parjoin"}
 	for _, f := range c12Forms {
 		floor = append(floor, "form."+f.name)
 	}
@@ -70,8 +71,11 @@ func init() {
 		Floor:         floor,
 		MinNontrivial: 200,
 		Phases: []fw.Phase{
-			{Name: "matrix", N: func(t fw.Tier) int { return pick(t, 3*len(c12Forms)*len(c12Positions), 60*len(c12Forms)*len(c12Positions)) }, Run: c12Matrix},
+			{Name: "matrix", N: func(t fw.Tier) int {
+				return pick(t, 3*len(c12Forms)*len(c12Positions), 60*len(c12Forms)*len(c12Positions))
+			}, Run: c12Matrix},
 			{Name: "rich", N: func(t fw.Tier) int { return pick(t, 3000, 150000) }, Run: c12Rich},
+			{Name: "parjoin", N: func(t fw.Tier) int { return pick(t, 128, 2000) }, Run: c12ParJoin, Batch: 8},
 		},
 		Witness: sqlWitness,
 	})
@@ -164,12 +168,20 @@ func c12Matrix(c *fw.Case) {
 		d = newRichDoc(c)
 	}
 	nf, np := len(c12Forms), len(c12Positions)
-	cell := c.Idx % (nf*np + 8)
+	cell := c.Idx % (nf*np + 16)
 	if cell >= nf*np {
 		// special select items
 		var sql string
 		var feat string
-		switch (cell - nf*np) % 4 {
+		switch (cell - nf*np) % 8 {
+		case 6:
+			sql, feat = "SELECT a, ASYNC.VBG(a) AS v, SPINASYNC.VBG(b) FROM mm WHERE a >= 0", "item.async-multidim"
+		case 7:
+			sql, feat = "SELECT a, ONCE.VBG(7) AS o FROM mm", "item.once-multidim"
+		case 4:
+			sql, feat = "SELECT rid, ASYNC.VBG(n1) AS v FROM t1 UNION ALL SELECT rid, ASYNC.VBG(s1) AS v FROM t1 WHERE n1 >= 0", "item.async-union"
+		case 5:
+			sql, feat = "WITH c1 AS (SELECT rid, ASYNC.VBG(n1) AS v, s1 FROM t1) SELECT * FROM c1", "item.async-cte"
 		case 0:
 			sql, feat = "SELECT rid, ASYNC.VBG(n1) AS v, ASYNC.VBG(s1) AS w FROM t1", "item.async"
 		case 1:
@@ -193,3 +205,56 @@ func c12Rich(c *fw.Case) {
 	sql := f.build(c, d, "VFAIL")
 	c12Judge(c, d, sql, f.multiset || strings.Contains(sql, "GROUP BY"), []string{"rich", "rich." + f.name}, c12Opts)
 }
+
+// c12ParJoin: determinism of the library's own parallelism. A PARALLEL join
+// over many key groups with large match sets is evaluated repeatedly; every
+// run must return the same multiset (and the exact number of pairs).
+func c12ParJoin(c *fw.Case) {
+	keys := 20 + c.Intn(pick(c.Tier, 30, 60))
+	dupL, dupR := 4+c.Intn(12), 4+c.Intn(12)
+	var l, r []any
+	for k := 0; k < keys; k++ {
+		for i := 0; i < dupL; i++ {
+			l = append(l, map[string]any{"k": float64(k), "i": float64(i)})
+		}
+		for i := 0; i < dupR; i++ {
+			r = append(r, map[string]any{"k": float64(k), "j": float64(i)})
+		}
+	}
+	doc := map[string]any{"l": l, "r": r}
+	jn := []string{"PARALLEL JOIN", "PARALLEL HASH_JOIN", "PARALLEL LEFT JOIN", "PARALLEL STRAIGHT_JOIN", "PARALLEL RIGHT HASH_JOIN"}[c.Idx%5]
+	sql := "SELECT x.k, x.i, y.j FROM l x " + jn + " r y ON x.k = y.k"
+	wantN := keys * dupL * dupR
+	c.Feature("parjoin")
+	c.Sample(map[string]any{"sql": sql, "key_groups": keys, "pairs": wantN})
+	R := pick(c.Tier, 6, 12)
+	var first []string
+	for rep := 0; rep < R; rep++ {
+		o := Run(val.CopyMap(doc), sql)
+		det := map[string]any{"sql": sql, "key_groups": keys, "left_dups": dupL, "right_dups": dupR, "repetition": rep}
+		if !o.OK() {
+			c.Violate("error", fmt.Sprintf("PARALLEL join failed: %v", short(fmt.Sprint(o.Describe()), 200)), det)
+			return
+		}
+		if len(o.Rows) != wantN {
+			c.Violate("nondeterministic", fmt.Sprintf("repetition %d of `%s` returned %d rows, the join has %d pairs", rep, sql, len(o.Rows), wantN), det)
+			return
+		}
+		cs := val.CanonSeq(o.Rows)
+		sortStrings2(cs)
+		if rep == 0 {
+			first = cs
+			continue
+		}
+		for i := range cs {
+			if cs[i] != first[i] {
+				c.Violate("nondeterministic", fmt.Sprintf("repetition %d of `%s` returned a different multiset", rep, sql), det)
+				return
+			}
+		}
+	}
+	c.Evals(R)
+	c.Nontrivial(sql + fmt.Sprint(keys, dupL, dupR))
+}
+
+func sortStrings2(s []string) { sort.Strings(s) }
